@@ -9,7 +9,7 @@ from .graph_spec import A, FA, list_unchanged
 from .model_spec import *
 
 MM = 'maltoolbox.model'
-WFM = lambda h, M, parts=('M0', 'M1', 'M2', 'M3', 'M4', 'M5'): [('wf.' + nm, f) for nm, f in wf_model(h, M, parts)]
+WFM = lambda h, M, parts=('M0', 'M1', 'M2', 'M3', 'M4', 'M5', 'M6'): [('wf.' + nm, f) for nm, f in wf_model(h, M, parts)]
 
 
 def old_scalars_unchanged(o: H, h: H, names, except_=None):
